@@ -89,6 +89,24 @@ func init() {
 			}
 			c.Note(fmt.Sprintf("%d parser configurations, %d profiles", len(cfgs), len(profs)))
 			bad := func(o Obs) bool { return o.Kind == "PANIC" || o.Kind == "TIMEOUT" || o.Kind == "NILNIL" }
+			// the public method BasicParser called directly: every state override, with and without a base, filling nil, NewUrl()
+			// or a parsed URL. With the overrides the library's own setters use and a parsed URL to fill, the call must return
+			// normally (that is what the setters do); elsewhere (an override that needs a base, given none; a record the state
+			// was never meant to see) model and implementation must agree on the outcome, a panic included.
+			{
+				direct := []*Cfg{defaultCfg, cfgFromDesc("report"), cfgFromDesc("fail"), cfgFromDesc("lax+collapse"), cfgFromDesc("specialAdd"),
+					cfgFromDesc("singlePct+acceptInvalid"), cfgFromDesc("skipDrive+skipTrailSlash"), cfgFromDesc("allowPathNonBase"), cfgFromDesc("preGsb"), cfgFromDesc("preSem+postGsb")}
+				for _, cfg := range direct {
+					cfg := cfg
+					famDirect(c, cfg, 3000*c.Scale, nil, "direct:"+cfg.Desc, nil)
+					famDirect(c, cfg, 3000*c.Scale, setterStates, "direct-setter-states:"+cfg.Desc, func(d *Driver, dc directCase, res []string, b, u0, ret *url.Url) {
+						if len(res) > 0 && res[0] == "!" && dc.start != "!" && dc.start != "@" {
+							c.Report(Finding{Class: "violation", What: "a direct call with a state override of the setters on a parsed URL panicked: " + dc.String(),
+								Case: Case{Kind: "direct", Cfg: dc.cfg.Desc, Base: dc.base, Input: dc.input, Family: "direct-setter-states", Extra: map[string]string{"call": dc.String()}}})
+						}
+					})
+				}
+			}
 			// parse / resolve
 			c.Pool.Run(30000*c.Scale, func(d *Driver, i int) {
 				r := rng.Fork(100000 + i)
